@@ -8,80 +8,96 @@ namespace SnowModel.ParseY
 
 /-! ### unfolding equations -/
 
-theorem pDef_zero (ms : AList RMacro) (d : RDef) : pDef 0 ms d = .error .fuel := by
+theorem pDef_zero (ms : AList RMacro) (exp : List String) (d : RDef) : pDef 0 ms exp d = .error .fuel := by
   cases d <;> rfl
-theorem pStmt_zero (ms : AList RMacro) (s : RStmt) : pStmt 0 ms s = .error .fuel := by
+theorem pStmt_zero (ms : AList RMacro) (exp : List String) (s : RStmt) : pStmt 0 ms exp s = .error .fuel := by
   cases s <;> rfl
-theorem pTemplate_zero (ms : AList RMacro) (t : RTemplate) : pTemplate 0 ms t = .error .fuel := rfl
-theorem includeMacro_zero (ms : AList RMacro) (ps : List String) (n : String) :
-    includeMacro 0 ms ps n = .error .fuel := rfl
+theorem pTemplate_zero (ms : AList RMacro) (exp : List String) (t : RTemplate) :
+    pTemplate 0 ms exp t = .error .fuel := rfl
+theorem includeMacro_zero (ms : AList RMacro) (exp ps : List String) (n : String) :
+    includeMacro 0 ms exp ps n = .error .fuel := rfl
 
-theorem pDef_val (f : Nat) (ms : AList RMacro) (p : String) : pDef (f + 1) ms (.val p) = .ok (.val p) := rfl
-theorem pDef_nested (f : Nat) (ms : AList RMacro) (t : RTemplate) :
-    pDef (f + 1) ms (.nested t) = match pTemplate f ms t with
+theorem pDef_val (f : Nat) (ms : AList RMacro) (exp : List String) (p : String) :
+    pDef (f + 1) ms exp (.val p) = .ok (.val p) := rfl
+theorem pDef_nested (f : Nat) (ms : AList RMacro) (exp : List String) (t : RTemplate) :
+    pDef (f + 1) ms exp (.nested t) = match pTemplate f ms exp t with
       | .error e => .error e
       | .ok r => .ok (.nested r) := by
   rw [pDef]; rfl
-theorem pStmt_var (f : Nat) (ms : AList RMacro) (n : String) (d : RDef) :
-    pStmt (f + 1) ms (.var n d) = match pDef f ms d with
+theorem pStmt_var (f : Nat) (ms : AList RMacro) (exp : List String) (n : String) (d : RDef) :
+    pStmt (f + 1) ms exp (.var n d) = match pDef f ms exp d with
       | .error e => .error e
       | .ok r => .ok (.var n r) := by
   rw [pStmt]; rfl
-theorem pStmt_obj (f : Nat) (ms : AList RMacro) (t : RTemplate) :
-    pStmt (f + 1) ms (.obj t) = match pTemplate f ms t with
+theorem pStmt_obj (f : Nat) (ms : AList RMacro) (exp : List String) (t : RTemplate) :
+    pStmt (f + 1) ms exp (.obj t) = match pTemplate f ms exp t with
       | .error e => .error e
       | .ok r => .ok (.obj r) := by
   rw [pStmt]; rfl
 
-theorem pTemplate_succ (f : Nat) (ms : AList RMacro) (t : RTemplate) :
-    pTemplate (f + 1) ms t =
-      match mapE (fun n => includeMacro f ms [] n) t.incl with
+theorem pTemplate_succ (f : Nat) (ms : AList RMacro) (exp : List String) (t : RTemplate) :
+    pTemplate (f + 1) ms exp t =
+      match mapE (fun n => includeMacro f ms exp [] n) t.incl with
       | .error e => .error e
       | .ok incs =>
-        match mapE (pField f ms) t.fields with
+        match mapE (pField f ms exp) t.fields with
         | .error e => .error e
         | .ok own =>
-          match mapE (fun s => pStmt f ms s) t.friends with
+          match mapE (fun s => pStmt f ms exp s) t.friends with
           | .error e => .error e
           | .ok ofr =>
             .ok (.mk t.table t.attrs (dedupe ((concatIncl incs).1 ++ own)) ((concatIncl incs).2 ++ ofr)) := by
   rw [pTemplate]; rfl
 
-theorem includeMacro_succ (f : Nat) (ms : AList RMacro) (parents : List String) (name : String) :
-    includeMacro (f + 1) ms parents name =
+/-- the two cycle checks of `include_macro`, as one function: `none` = go on -/
+def cycleErr (exp parents : List String) (name : String) : Option Err :=
+  if !parents.contains name && exp.contains name then some (.macroNested name)
+  else if parents.contains name then some (.macroCycle parents name) else none
+
+theorem includeMacro_succ (f : Nat) (ms : AList RMacro) (exp parents : List String) (name : String) :
+    includeMacro (f + 1) ms exp parents name =
       match ms.lookup name with
       | none => .error (.noMacro name)
       | some m =>
-        if parents.contains name then .error (.macroCycle parents name) else
-        match mapE (fun n => includeMacro f ms (parents ++ [name]) n) m.incl with
+        match cycleErr exp parents name with
+        | some e => .error e
+        | none =>
+        match mapE (fun n => includeMacro f ms (exp ++ [name]) (parents ++ [name]) n) m.incl with
         | .error e => .error e
         | .ok incs =>
-          match mapE (pField f ms) m.fields with
+          match mapE (pField f ms (exp ++ [name])) m.fields with
           | .error e => .error e
           | .ok own =>
-            match mapE (fun s => pStmt f ms s) m.friends with
+            match mapE (fun s => pStmt f ms (exp ++ [name]) s) m.friends with
             | .error e => .error e
             | .ok ofr => .ok (dedupe ((concatIncl incs).1 ++ own), (concatIncl incs).2 ++ ofr) := by
-  rw [includeMacro]; rfl
+  rw [includeMacro]
+  cases ms.lookup name with
+  | none => rfl
+  | some m =>
+    simp only [cycleErr]
+    cases parents.contains name <;> cases exp.contains name <;> rfl
 
 /-! ### `include_macro` without its intermediate de-duplication -/
 
 /-- the fields of a macro as the *concatenation* fields(inclusion₁) ++ … ++ own fields, the friends
-    likewise; same lookups, same cycle check, same parsing of the definitions -/
-def flatMacro : Nat → AList RMacro → List String → String → Except Err Incl
-  | 0, _, _, _ => .error .fuel
-  | f + 1, ms, parents, name =>
+    likewise; same lookups, same cycle checks, same parsing of the definitions -/
+def flatMacro : Nat → AList RMacro → List String → List String → String → Except Err Incl
+  | 0, _, _, _, _ => .error .fuel
+  | f + 1, ms, exp, parents, name =>
     match ms.lookup name with
     | none => .error (.noMacro name)
     | some m =>
-      if parents.contains name then .error (.macroCycle parents name) else
-      match mapE (fun n => flatMacro f ms (parents ++ [name]) n) m.incl with
+      match cycleErr exp parents name with
+      | some e => .error e
+      | none =>
+      match mapE (fun n => flatMacro f ms (exp ++ [name]) (parents ++ [name]) n) m.incl with
       | .error e => .error e
       | .ok incs =>
-        match mapE (pField f ms) m.fields with
+        match mapE (pField f ms (exp ++ [name])) m.fields with
         | .error e => .error e
         | .ok own =>
-          match mapE (fun s => pStmt f ms s) m.friends with
+          match mapE (fun s => pStmt f ms (exp ++ [name]) s) m.friends with
           | .error e => .error e
           | .ok ofr => .ok ((concatIncl incs).1 ++ own, (concatIncl incs).2 ++ ofr)
 
@@ -110,9 +126,9 @@ theorem concatIncl_dedupe_fst (rs : List Incl) (own : AList PDef) :
   simpa [concatIncl, dedupeIncl, List.flatMap_def, List.map_map, Function.comp_def] using h
 
 /-- **the intermediate de-duplications are invisible**: `include_macro` = de-dup of the concatenation -/
-theorem includeMacro_eq_flat (f : Nat) (ms : AList RMacro) (ps : List String) (n : String) :
-    includeMacro f ms ps n = (flatMacro f ms ps n).map dedupeIncl := by
-  induction f generalizing ps n with
+theorem includeMacro_eq_flat (f : Nat) (ms : AList RMacro) (exp ps : List String) (n : String) :
+    includeMacro f ms exp ps n = (flatMacro f ms exp ps n).map dedupeIncl := by
+  induction f generalizing exp ps n with
   | zero => rfl
   | succ f ih =>
     rw [includeMacro_succ, flatMacro]
@@ -120,145 +136,190 @@ theorem includeMacro_eq_flat (f : Nat) (ms : AList RMacro) (ps : List String) (n
     | none => rfl
     | some m =>
       simp only
-      by_cases hc : ps.contains n = true
-      · rw [if_pos hc, if_pos hc]; rfl
-      · rw [if_neg hc, if_neg hc]
-        have e1 : (fun x => includeMacro f ms (ps ++ [n]) x) =
-            (fun x => (flatMacro f ms (ps ++ [n]) x).map dedupeIncl) := funext (fun x => ih (ps ++ [n]) x)
+      cases cycleErr exp ps n with
+      | some e => rfl
+      | none =>
+        simp only
+        have e1 : (fun x => includeMacro f ms (exp ++ [n]) (ps ++ [n]) x) =
+            (fun x => (flatMacro f ms (exp ++ [n]) (ps ++ [n]) x).map dedupeIncl) :=
+          funext (fun x => ih (exp ++ [n]) (ps ++ [n]) x)
         rw [e1, mapE_map_ok]
-        cases mapE (fun x => flatMacro f ms (ps ++ [n]) x) m.incl with
+        cases mapE (fun x => flatMacro f ms (exp ++ [n]) (ps ++ [n]) x) m.incl with
         | error e => rfl
         | ok incs =>
           simp only [Except.map]
-          cases mapE (pField f ms) m.fields with
+          cases mapE (pField f ms (exp ++ [n])) m.fields with
           | error e => rfl
           | ok own =>
             simp only
-            cases mapE (fun s => pStmt f ms s) m.friends with
+            cases mapE (fun s => pStmt f ms (exp ++ [n]) s) m.friends with
             | error e => rfl
             | ok ofr =>
               rw [concatIncl_dedupe_snd, concatIncl_dedupe_fst]; rfl
 
-/-! ### fuel monotonicity -/
+/-! ### monotonicity: more fuel, a smaller expansion stack -/
 
-theorem fuel_mono_step (ms : AList RMacro) (f : Nat) :
-    (∀ d r, pDef f ms d = .ok r → pDef (f + 1) ms d = .ok r) ∧
-    (∀ s r, pStmt f ms s = .ok r → pStmt (f + 1) ms s = .ok r) ∧
-    (∀ t r, pTemplate f ms t = .ok r → pTemplate (f + 1) ms t = .ok r) ∧
-    (∀ ps n r, includeMacro f ms ps n = .ok r → includeMacro (f + 1) ms ps n = .ok r) := by
+/-- `exp'` has no more elements than `exp` -/
+def SubStack (exp' exp : List String) : Prop := ∀ x, x ∈ exp' → x ∈ exp
+
+theorem SubStack.refl (e : List String) : SubStack e e := fun _ h => h
+theorem SubStack.push {e' e : List String} (h : SubStack e' e) (n : String) : SubStack (e' ++ [n]) (e ++ [n]) := by
+  intro x hx
+  rcases List.mem_append.mp hx with hx | hx
+  · exact List.mem_append.mpr (Or.inl (h x hx))
+  · exact List.mem_append.mpr (Or.inr hx)
+
+theorem cycleErr_none_of_sub {e' e ps : List String} {n : String} (h : SubStack e' e)
+    (hc : cycleErr e ps n = none) : cycleErr e' ps n = none := by
+  unfold cycleErr at hc ⊢
+  cases h2 : ps.contains n
+  · rw [h2] at hc
+    cases h3 : e.contains n
+    · have : e'.contains n = false := by
+        have h3' : n ∉ e := by simpa using h3
+        have : n ∉ e' := fun hx => h3' (h n hx)
+        simpa using this
+      rw [this]
+      rfl
+    · rw [h3] at hc
+      exact absurd hc (by simp)
+  · rw [h2] at hc
+    exact absurd hc (by simp)
+
+theorem mono_step (ms : AList RMacro) (f : Nat) :
+    (∀ e e' d r, SubStack e' e → pDef f ms e d = .ok r → pDef (f + 1) ms e' d = .ok r) ∧
+    (∀ e e' s r, SubStack e' e → pStmt f ms e s = .ok r → pStmt (f + 1) ms e' s = .ok r) ∧
+    (∀ e e' t r, SubStack e' e → pTemplate f ms e t = .ok r → pTemplate (f + 1) ms e' t = .ok r) ∧
+    (∀ e e' ps n r, SubStack e' e → includeMacro f ms e ps n = .ok r → includeMacro (f + 1) ms e' ps n = .ok r) := by
   induction f with
   | zero =>
     refine ⟨?_, ?_, ?_, ?_⟩
-    · intro d r h; rw [pDef_zero] at h; cases h
-    · intro s r h; rw [pStmt_zero] at h; cases h
-    · intro t r h; rw [pTemplate_zero] at h; cases h
-    · intro ps n r h; rw [includeMacro_zero] at h; cases h
+    · intro e e' d r _ h; rw [pDef_zero] at h; cases h
+    · intro e e' s r _ h; rw [pStmt_zero] at h; cases h
+    · intro e e' t r _ h; rw [pTemplate_zero] at h; cases h
+    · intro e e' ps n r _ h; rw [includeMacro_zero] at h; cases h
   | succ f ih =>
     obtain ⟨ihD, ihS, ihT, ihM⟩ := ih
-    have hField : ∀ p r, pField f ms p = .ok r → pField (f + 1) ms p = .ok r := by
-      intro p r h
+    have hField : ∀ e e' p r, SubStack e' e → pField f ms e p = .ok r → pField (f + 1) ms e' p = .ok r := by
+      intro e e' p r hs h
       unfold pField at h ⊢
-      cases hd : pDef f ms p.2 with
-      | error e => rw [hd] at h; cases h
-      | ok d => rw [hd] at h; rw [ihD _ _ hd]; exact h
-    have hD : ∀ d r, pDef (f + 1) ms d = .ok r → pDef (f + 2) ms d = .ok r := by
-      intro d r h
+      cases hd : pDef f ms e p.2 with
+      | error x => rw [hd] at h; cases h
+      | ok d => rw [hd] at h; rw [ihD _ _ _ _ hs hd]; exact h
+    have hD : ∀ e e' d r, SubStack e' e → pDef (f + 1) ms e d = .ok r → pDef (f + 2) ms e' d = .ok r := by
+      intro e e' d r hs h
       cases d with
       | val p => rw [pDef_val] at h ⊢; exact h
       | nested t =>
         rw [pDef_nested] at h ⊢
-        cases ht : pTemplate f ms t with
-        | error e => rw [ht] at h; cases h
-        | ok x => rw [ht] at h; rw [ihT _ _ ht]; exact h
-    have hS : ∀ s r, pStmt (f + 1) ms s = .ok r → pStmt (f + 2) ms s = .ok r := by
-      intro s r h
+        cases ht : pTemplate f ms e t with
+        | error x => rw [ht] at h; cases h
+        | ok x => rw [ht] at h; rw [ihT _ _ _ _ hs ht]; exact h
+    have hS : ∀ e e' s r, SubStack e' e → pStmt (f + 1) ms e s = .ok r → pStmt (f + 2) ms e' s = .ok r := by
+      intro e e' s r hs h
       cases s with
       | var n d =>
         rw [pStmt_var] at h ⊢
-        cases hd : pDef f ms d with
-        | error e => rw [hd] at h; cases h
-        | ok x => rw [hd] at h; rw [ihD _ _ hd]; exact h
+        cases hd : pDef f ms e d with
+        | error x => rw [hd] at h; cases h
+        | ok x => rw [hd] at h; rw [ihD _ _ _ _ hs hd]; exact h
       | obj t =>
         rw [pStmt_obj] at h ⊢
-        cases ht : pTemplate f ms t with
-        | error e => rw [ht] at h; cases h
-        | ok x => rw [ht] at h; rw [ihT _ _ ht]; exact h
+        cases ht : pTemplate f ms e t with
+        | error x => rw [ht] at h; cases h
+        | ok x => rw [ht] at h; rw [ihT _ _ _ _ hs ht]; exact h
     refine ⟨hD, hS, ?_, ?_⟩
-    · intro t r h
+    · intro e e' t r hs h
       rw [pTemplate_succ] at h ⊢
-      cases h1 : mapE (fun n => includeMacro f ms [] n) t.incl with
-      | error e => rw [h1] at h; cases h
+      cases h1 : mapE (fun n => includeMacro f ms e [] n) t.incl with
+      | error x => rw [h1] at h; cases h
       | ok incs =>
         rw [h1] at h
-        rw [mapE_mono _ (fun n => includeMacro (f + 1) ms [] n) _ incs (fun x _ r hx => ihM [] x r hx) h1]
-        cases h2 : mapE (pField f ms) t.fields with
-        | error e => rw [h2] at h; cases h
+        rw [mapE_mono _ (fun n => includeMacro (f + 1) ms e' [] n) _ incs (fun x _ r hx => ihM e e' [] x r hs hx) h1]
+        cases h2 : mapE (pField f ms e) t.fields with
+        | error x => rw [h2] at h; cases h
         | ok own =>
           rw [h2] at h
-          rw [mapE_mono _ (pField (f + 1) ms) _ own (fun x _ r hx => hField x r hx) h2]
-          cases h3 : mapE (fun s => pStmt f ms s) t.friends with
-          | error e => rw [h3] at h; cases h
+          rw [mapE_mono _ (pField (f + 1) ms e') _ own (fun x _ r hx => hField e e' x r hs hx) h2]
+          cases h3 : mapE (fun s => pStmt f ms e s) t.friends with
+          | error x => rw [h3] at h; cases h
           | ok ofr =>
             rw [h3] at h
-            rw [mapE_mono _ (fun s => pStmt (f + 1) ms s) _ ofr (fun x _ r hx => ihS x r hx) h3]
+            rw [mapE_mono _ (fun s => pStmt (f + 1) ms e' s) _ ofr (fun x _ r hx => ihS e e' x r hs hx) h3]
             exact h
-    · intro ps n r h
+    · intro e e' ps n r hs h
       rw [includeMacro_succ] at h ⊢
       cases hl : ms.lookup n with
       | none => rw [hl] at h; cases h
       | some m =>
         rw [hl] at h
         simp only at h ⊢
-        by_cases hc : ps.contains n = true
-        · rw [if_pos hc] at h; cases h
-        · rw [if_neg hc] at h ⊢
-          cases h1 : mapE (fun x => includeMacro f ms (ps ++ [n]) x) m.incl with
-          | error e => rw [h1] at h; cases h
+        cases hc : cycleErr e ps n with
+        | some x => rw [hc] at h; cases h
+        | none =>
+          rw [hc] at h
+          rw [cycleErr_none_of_sub hs hc]
+          simp only at h ⊢
+          have hs' := hs.push n
+          cases h1 : mapE (fun x => includeMacro f ms (e ++ [n]) (ps ++ [n]) x) m.incl with
+          | error x => rw [h1] at h; cases h
           | ok incs =>
             rw [h1] at h
-            rw [mapE_mono _ (fun x => includeMacro (f + 1) ms (ps ++ [n]) x) _ incs
-              (fun x _ r hx => ihM (ps ++ [n]) x r hx) h1]
-            cases h2 : mapE (pField f ms) m.fields with
-            | error e => rw [h2] at h; cases h
+            rw [mapE_mono _ (fun x => includeMacro (f + 1) ms (e' ++ [n]) (ps ++ [n]) x) _ incs
+              (fun x _ r hx => ihM _ _ (ps ++ [n]) x r hs' hx) h1]
+            cases h2 : mapE (pField f ms (e ++ [n])) m.fields with
+            | error x => rw [h2] at h; cases h
             | ok own =>
               rw [h2] at h
-              rw [mapE_mono _ (pField (f + 1) ms) _ own (fun x _ r hx => hField x r hx) h2]
-              cases h3 : mapE (fun s => pStmt f ms s) m.friends with
-              | error e => rw [h3] at h; cases h
+              rw [mapE_mono _ (pField (f + 1) ms (e' ++ [n])) _ own (fun x _ r hx => hField _ _ x r hs' hx) h2]
+              cases h3 : mapE (fun s => pStmt f ms (e ++ [n]) s) m.friends with
+              | error x => rw [h3] at h; cases h
               | ok ofr =>
                 rw [h3] at h
-                rw [mapE_mono _ (fun s => pStmt (f + 1) ms s) _ ofr (fun x _ r hx => ihS x r hx) h3]
+                rw [mapE_mono _ (fun s => pStmt (f + 1) ms (e' ++ [n]) s) _ ofr (fun x _ r hx => ihS _ _ x r hs' hx) h3]
                 exact h
 
-theorem pTemplate_mono (ms : AList RMacro) (f g : Nat) (hfg : f ≤ g) (t : RTemplate) (r : PTemplate)
-    (h : pTemplate f ms t = .ok r) : pTemplate g ms t = .ok r := by
+theorem pTemplate_mono (ms : AList RMacro) (f g : Nat) (hfg : f ≤ g) (e : List String) (t : RTemplate)
+    (r : PTemplate) (h : pTemplate f ms e t = .ok r) : pTemplate g ms e t = .ok r := by
   induction hfg with
   | refl => exact h
-  | step _ ih => exact (fuel_mono_step ms _).2.2.1 t r ih
+  | step _ ih => exact (mono_step ms _).2.2.1 e e t r (SubStack.refl e) ih
 
-theorem pStmt_mono (ms : AList RMacro) (f g : Nat) (hfg : f ≤ g) (s : RStmt) (r : PStmt)
-    (h : pStmt f ms s = .ok r) : pStmt g ms s = .ok r := by
+theorem pStmt_mono (ms : AList RMacro) (f g : Nat) (hfg : f ≤ g) (e : List String) (s : RStmt) (r : PStmt)
+    (h : pStmt f ms e s = .ok r) : pStmt g ms e s = .ok r := by
   induction hfg with
   | refl => exact h
-  | step _ ih => exact (fuel_mono_step ms _).2.1 s r ih
+  | step _ ih => exact (mono_step ms _).2.1 e e s r (SubStack.refl e) ih
 
-theorem pDef_mono (ms : AList RMacro) (f g : Nat) (hfg : f ≤ g) (d : RDef) (r : PDef)
-    (h : pDef f ms d = .ok r) : pDef g ms d = .ok r := by
+theorem pDef_mono (ms : AList RMacro) (f g : Nat) (hfg : f ≤ g) (e : List String) (d : RDef) (r : PDef)
+    (h : pDef f ms e d = .ok r) : pDef g ms e d = .ok r := by
   induction hfg with
   | refl => exact h
-  | step _ ih => exact (fuel_mono_step ms _).1 d r ih
+  | step _ ih => exact (mono_step ms _).1 e e d r (SubStack.refl e) ih
 
-theorem pField_mono (ms : AList RMacro) (f g : Nat) (hfg : f ≤ g) (p : String × RDef) (r : String × PDef)
-    (h : pField f ms p = .ok r) : pField g ms p = .ok r := by
+theorem pField_mono (ms : AList RMacro) (f g : Nat) (hfg : f ≤ g) (e : List String) (p : String × RDef)
+    (r : String × PDef) (h : pField f ms e p = .ok r) : pField g ms e p = .ok r := by
   unfold pField at h ⊢
-  cases hd : pDef f ms p.2 with
-  | error e => rw [hd] at h; cases h
-  | ok d => rw [hd] at h; rw [pDef_mono ms f g hfg _ _ hd]; exact h
+  cases hd : pDef f ms e p.2 with
+  | error x => rw [hd] at h; cases h
+  | ok d => rw [hd] at h; rw [pDef_mono ms f g hfg e _ _ hd]; exact h
 
-theorem includeMacro_mono (ms : AList RMacro) (f g : Nat) (hfg : f ≤ g) (ps : List String) (n : String)
-    (r : Incl) (h : includeMacro f ms ps n = .ok r) : includeMacro g ms ps n = .ok r := by
+theorem includeMacro_mono (ms : AList RMacro) (f g : Nat) (hfg : f ≤ g) (e ps : List String) (n : String)
+    (r : Incl) (h : includeMacro f ms e ps n = .ok r) : includeMacro g ms e ps n = .ok r := by
   induction hfg with
   | refl => exact h
-  | step _ ih => exact (fuel_mono_step ms _).2.2.2 ps n r ih
+  | step _ ih => exact (mono_step ms _).2.2.2 e e ps n r (SubStack.refl e) ih
+
+/-- one more unit of fuel, a smaller stack: fields -/
+theorem pField_step (ms : AList RMacro) (f : Nat) (e e' : List String) (hs : SubStack e' e)
+    (p : String × RDef) (r : String × PDef) (h : pField f ms e p = .ok r) : pField (f + 1) ms e' p = .ok r := by
+  unfold pField at h ⊢
+  cases hd : pDef f ms e p.2 with
+  | error x => rw [hd] at h; cases h
+  | ok d => rw [hd] at h; rw [(mono_step ms f).1 e e' _ _ hs hd]; exact h
+
+theorem pStmt_step (ms : AList RMacro) (f : Nat) (e e' : List String) (hs : SubStack e' e)
+    (s : RStmt) (r : PStmt) (h : pStmt f ms e s = .ok r) : pStmt (f + 1) ms e' s = .ok r :=
+  (mono_step ms f).2.1 e e' s r hs h
 
 end SnowModel.ParseY
